@@ -395,6 +395,9 @@ impl Server {
                 did_work = true;
             }
             
+            // Notice blocked clients that disconnected
+            self.drop_disconnected_blocked_clients()?;
+            
             // Process connections with pending writes
             if self.process_pending_writes()? {
                 did_work = true;
@@ -475,55 +478,91 @@ impl Server {
         Ok(true)
     }
     
-    /// Wake up a specific blocked client with data
+    /// Serve the clients blocked on a key that received data: first-blocked-first, for as
+    /// long as the key holds elements. A waiter is removed from the registry only when it is
+    /// served (or found gone), so an element is popped only for a client that receives it.
     fn wake_client(&self, wakeup: WakeupRequest) -> Result<()> {
-        // Perform atomic pop based on the operation type
-        let value = match wakeup.op_type {
-            super::connection::BlockingOp::BLPop => self.storage.lpop(wakeup.db, &wakeup.key)?,
-            super::connection::BlockingOp::BRPop => self.storage.rpop(wakeup.db, &wakeup.key)?,
-            super::connection::BlockingOp::XReadBlock(_) => {
-                // XReadBlock not implemented yet, skip for now
-                return Ok(());
+        while let Some(client) = self.blocking_manager.first_waiter(wakeup.db, &wakeup.key) {
+            // A waiter whose connection is gone or no longer blocked consumes nothing
+            let still_blocked = self.connections.with_connection(client.conn_id, |conn| {
+                matches!(conn.state, ConnectionState::Blocked(_)) && !conn.peer_closed()
+            }).unwrap_or(false);
+            if !still_blocked {
+                self.blocking_manager.unregister_client(wakeup.db, client.conn_id)?;
+                continue;
             }
-        };
-        
-        // Critical fix: Only proceed if we actually got data
-        // This prevents race conditions when multiple clients wake up simultaneously
-        if let Some(popped_value) = value {
-            self.log_served_pop(wakeup.db, &wakeup.key, match wakeup.op_type {
+            
+            let value = match client.op_type {
+                super::connection::BlockingOp::BLPop => self.storage.lpop(wakeup.db, &wakeup.key)?,
+                super::connection::BlockingOp::BRPop => self.storage.rpop(wakeup.db, &wakeup.key)?,
+                super::connection::BlockingOp::XReadBlock(_) => {
+                    // XReadBlock not implemented yet
+                    self.blocking_manager.unregister_client(wakeup.db, client.conn_id)?;
+                    continue;
+                }
+            };
+            
+            // No data (another client popped it first): the waiters keep waiting
+            let popped_value = match value {
+                Some(v) => v,
+                None => break,
+            };
+            
+            self.log_served_pop(wakeup.db, &wakeup.key, match client.op_type {
                 super::connection::BlockingOp::BRPop => "RPOP",
                 _ => "LPOP",
             });
             
-            // Try to update connection state - use try_with_connection to avoid deadlock
-            if let Some(result) = self.connections.with_connection(wakeup.conn_id, |conn| -> Result<()> {
-                // Only wake if still in blocked state
-                if let ConnectionState::Blocked(_) = conn.state {
-                    // Send the response with the atomically popped value
-                    let response = RespFrame::Array(Some(vec![
-                        RespFrame::from_bytes(wakeup.key.clone()),
-                        RespFrame::from_bytes(popped_value),
-                    ]));
-                    
-                    // Try to send response - if connection is closed, ignore error
-                    if let Err(_) = conn.send_frame(&response) {
-                        // Connection closed - this is okay, just return
-                        return Ok(());
-                    }
-                    
-                    // Return connection to authenticated state
-                    conn.state = ConnectionState::Authenticated;
-                }
-                Ok(())
-            }) {
-                // Execute the result and ignore any connection errors
-                let _ = result;
-            }
+            // Served: the client no longer waits on any of its keys
+            self.blocking_manager.unregister_client(wakeup.db, client.conn_id)?;
+            
+            self.connections.with_connection(client.conn_id, |conn| {
+                let response = RespFrame::Array(Some(vec![
+                    RespFrame::from_bytes(wakeup.key.clone()),
+                    RespFrame::from_bytes(popped_value),
+                ]));
+                
+                // If the connection fails right now there is nobody left to tell
+                let _ = conn.send_frame(&response);
+                
+                // Return connection to authenticated state
+                conn.state = ConnectionState::Authenticated;
+            });
         }
-        // If value is None (list was empty), the client should be timed out normally
-        // This is correct behavior - multiple wake-ups for same item result in only one getting data
         
         Ok(())
+    }
+    
+    /// Blocked connections are not read from, so a blocked client that went away has to be
+    /// looked for: it is unregistered and its connection closed
+    fn drop_disconnected_blocked_clients(&self) -> Result<()> {
+        for id in self.connections.all_connection_ids() {
+            let gone = self.connections.with_connection(id, |conn| {
+                if matches!(conn.state, ConnectionState::Blocked(_)) && conn.peer_closed() {
+                    conn.state = ConnectionState::Closing;
+                    true
+                } else {
+                    false
+                }
+            }).unwrap_or(false);
+            
+            if gone {
+                for db in 0..self.storage.database_count() {
+                    self.blocking_manager.unregister_client(db, id)?;
+                }
+            }
+        }
+        
+        Ok(())
+    }
+    
+    /// After a script ran: lists it pushed to may now hold data for blocked clients
+    fn notify_ready_blocked_keys(&self, db: usize) {
+        for key in self.blocking_manager.blocked_keys(db) {
+            if self.storage.llen(db, &key).unwrap_or(0) > 0 {
+                self.blocking_manager.notify_key_ready(db, &key);
+            }
+        }
     }
     
     /// Process timeouts for blocked clients
@@ -1526,17 +1565,22 @@ impl Server {
             "QUIT" => Ok(RespFrame::ok()),
             "EVAL" => {
                 use crate::storage::commands::lua::handle_eval_with_db;
-                match handle_eval_with_db(&self.storage, parts, db) {
+                let result = match handle_eval_with_db(&self.storage, parts, db) {
                     Ok(resp) => Ok(resp),
                     Err(e) => {
                         eprintln!("[SERVER ERROR] Lua EVAL error: {}", e);
                         Ok(RespFrame::error(format!("ERR Lua execution error: {}", e)))
                     }
-                }
+                };
+                // The script may have pushed to lists that clients are blocked on
+                self.notify_ready_blocked_keys(db);
+                result
             },
             "EVALSHA" => {
                 // EVALSHA needs script cache access
-                self.handle_evalsha_command(parts, db)
+                let result = self.handle_evalsha_command(parts, db);
+                self.notify_ready_blocked_keys(db);
+                result
             },
             "COMMAND" => {
                 // Redis introspection command for client compatibility
